@@ -18,7 +18,7 @@ rm -f "$demo"
 cd /verif
 VERIF_REPO="$scratch" VERIF_EVIDENCE_DIR="$scratch/evidence" ./check "$cid" quick >"$scratch/check_quick.log" 2>&1; q=$?
 t=-1
-if [ $q -ne 1 ]; then VERIF_REPO="$scratch" VERIF_EVIDENCE_DIR="$scratch/evidence" ./check "$cid" thorough >"$scratch/check_thorough.log" 2>&1; t=$?; fi
+if [ $q -ne 1 ] && [ -z "$SEED_NO_THOROUGH" ]; then VERIF_REPO="$scratch" VERIF_EVIDENCE_DIR="$scratch/evidence" ./check "$cid" thorough >"$scratch/check_thorough.log" 2>&1; t=$?; fi
 first=$(grep -a -m1 -A1 "VIOLATION" "$scratch/check_quick.log" "$scratch/check_thorough.log" 2>/dev/null | tail -1 | cut -c1-300 | tr '"' "'" )
 echo "{\"id\":\"$id\",\"k\":$k,\"demo_on_clean_exit\":$clean,\"demo_on_mutant_exit\":$mut,\"suite_on_mutant_exit\":$suite,\"check_quick_exit\":$q,\"check_thorough_exit\":$t,\"first_violation\":\"$first\"}"
 mkdir -p /tmp/seed/logs/$id-$k && cp "$scratch"/*.log /tmp/seed/logs/$id-$k/ 2>/dev/null
